@@ -379,6 +379,22 @@ func (a *modFn) translate(l string, args []ssa.Value, bindings []ssa.Value) locS
 		fmt.Sscanf(root, "fv%d", &i)
 		if i < len(bindings) {
 			for x := range a.derive(bindings[i]) {
+				// a captured variable is bound by the address of its cell: what the closure reaches
+				// through it is the content of the cell
+				if _, isCell := a.m.allocVal[locRoot(x)].(*ssa.Alloc); isCell && x == locRoot(x) {
+					if rest == "" {
+						out[x] = true
+						continue
+					}
+					for k, set := range a.m.pts[a.f] {
+						if k == x || k == x+"#whole" {
+							for y := range set {
+								out[appendRest(y, rest)] = true
+							}
+						}
+					}
+					continue
+				}
 				out[appendRest(x, rest)] = true
 			}
 		}
